@@ -111,12 +111,12 @@ macro_rules | `(tactic| gsim_leaf) => `(tactic| exact gsim_applyVoid _ _ _ _)
 theorem gsim_scalarDivider (o : Ops V) (inp : String) (arg : V) (out : String) :
     GSim I ab (fun _ => True) (scalarDivider (σ := σ) o inp arg out) (scalarDivider (σ := τ) o inp arg out) := by
   unfold scalarDivider
-  gsim_auto
+  exact gsim_applyVoid o _ inp out
 
 theorem gsim_scalarRevDivider (o : Ops V) (inp : String) (arg : V) (out : String) :
     GSim I ab (fun _ => True) (scalarRevDivider (σ := σ) o inp arg out) (scalarRevDivider (σ := τ) o inp arg out) := by
   unfold scalarRevDivider
-  gsim_auto
+  exact gsim_applyVoid o _ inp out
 
 theorem gsim_shiftCircular (o : Ops V) (inp : String) (arg : V) (out : String) :
     GSim I ab (fun _ => True) (shiftCircular (σ := σ) o inp arg out) (shiftCircular (σ := τ) o inp arg out) := by
